@@ -167,6 +167,22 @@ def check_c05(case, stats):
       calls.append(('score', (cast(ti, dt), yq), (pool[ti], yq)))
     else:
       calls.append(('score', (cast(ti, dt),), (pool[ti],)))
+  # extra query rounds over the POOL rows themselves (decoys included): index vectors in the shapes that tempt
+  # shortcuts - consecutive runs with one repeat and one gap, fully consecutive runs, random order, all in the
+  # drawn dtype and memory layout
+  rsq = np.random.RandomState(case['pool_seed'] + 1)
+  for rnd in range(6):
+    m_ = rsq.randint(3, min(9, total))
+    s_ = rsq.randint(0, total - m_ + 1)
+    run = np.arange(s_, s_ + m_)
+    if rnd % 3 == 0:
+      j = rsq.randint(1, m_ - 1)
+      run[j] = run[j - 1]                    # sorted, one repeat, one gap, last - first == len - 1
+    elif rnd % 3 == 1:
+      run = rsq.permutation(total)[:m_]
+    calls.append(('transform', (cast(run, dt),), (pool[run],)))
+    pr = np.stack([run, np.roll(run, 1)], axis=1)
+    calls.append(('pair_distance', (cast(pr, dt),), (pool[pr],)))
   for meth, aA, aB in calls:
     oA = call('C05/%s-indices/%s' % (meth, name), getattr(A, meth), *aA)
     oB = call('C05/%s-formed/%s' % (meth, name), getattr(B, meth), *aB)
